@@ -61,10 +61,16 @@ type RouteItem struct {
 	// (that dial times out after 5 s and is not judged); the pair that follows must be unaffected
 	StaleDial bool `json:"staleDial,omitempty"`
 	// DoubleClose (reaccept): the old listener is closed a second time after the id was accepted again
-	DoubleClose bool `json:"doubleClose,omitempty"`
-	Redial      bool `json:"redial"`
-	AtExpiry    bool `json:"atExpiry"` // (redial) issued about 5 s after the previous dial to this listener: the moment the broker expires that dial's bookkeeping
-	SkewUs      int  `json:"skewUs"`   // offset from that instant, microseconds (may be negative) // (grpcmux) no new accept: dial the still-open listener of (accepting side, id) again
+	// ClosedUnderDial (grpcmux, a case with a host child of its own): before the judged pair is established, another
+	// id (ID+500000) is accepted on the accepting side with a plain Accept and dialled, and its listener is
+	// closed at the moment the dial's stream arrives at the accepting side's muxer (hook points
+	// grpcmux.server.accepted / grpcmux.client.unblocked). That dial may fail and is not judged; the judged
+	// pair, like every later one, must be unaffected
+	ClosedUnderDial bool `json:"closedUnderDial,omitempty"`
+	DoubleClose     bool `json:"doubleClose,omitempty"`
+	Redial          bool `json:"redial"`
+	AtExpiry        bool `json:"atExpiry"` // (redial) issued about 5 s after the previous dial to this listener: the moment the broker expires that dial's bookkeeping
+	SkewUs          int  `json:"skewUs"`   // offset from that instant, microseconds (may be negative) // (grpcmux) no new accept: dial the still-open listener of (accepting side, id) again
 }
 
 // RouteObs: what one end of one id observed.
